@@ -181,7 +181,8 @@ Inductive iface :=
 | IStreaming          (* StreamingQueryExecutor::execute (historical phase) *)
 | IFlightInfo         (* Flight SQL get_flight_info / analyze_schema *)
 | IFlightPrepare      (* Flight SQL create_prepared_statement *)
-| IFlightPrepareGrpc. (* gRPC do_action_create_prepared_statement: prepare, then analyze *)
+| IFlightPrepareGrpc  (* gRPC do_action_create_prepared_statement: prepare, then analyze *)
+| IExecuteStream.     (* QueryEngine::execute_stream (public engine API; no caller in the tree today) *)
 
 Definition iface_sites (i : iface) : list site :=
   match i with
@@ -191,6 +192,7 @@ Definition iface_sites (i : iface) : list site :=
   | IFlightInfo => [SAnalyze]
   | IFlightPrepare => [SPrepare]
   | IFlightPrepareGrpc => [SPrepare; SAnalyze]
+  | IExecuteStream => [SExecuteStream]
   end.
 
 (* Calls are made in order; the request stops at the first error, except that
